@@ -429,6 +429,13 @@ func showObs(v Val, mod map[string]int64) string {
 
 // reportViolation records a counterexample: model of PC ∧ extra.
 func (m *Machine) reportViolation(kind, id, msg string, extra *Term) {
+	if m.solver.Lost {
+		// the solver was restarted on this path (no answer long after its timeout): its context is gone, a "model" from
+		// it would be arbitrary. The path is undecided.
+		m.res.End = "inconclusive"
+		m.res.Msg = "solver restarted on this path; candidate " + id + " not decided"
+		return
+	}
 	r, mod := m.solver.CheckModel(extra, m.ndTerms())
 	if r != Sat {
 		if kind == "panic" {
